@@ -81,19 +81,19 @@ theorem optAll_map_isSome {l : List α} {f : α → Option β} (h : ∀ a ∈ l,
     | some v => exact ⟨v :: r, by simp [optAll, hfa, hr], by simp [hfa, hm]⟩
 
 /-- what `gatherLast` returns when every looked-up row exists -/
-theorem gatherLast_eq {B : Nat} {lens : List Nat} {hTemp : List (List S)}
+theorem gatherLast_eq (cast : S → S) {B : Nat} {lens : List Nat} {hTemp : List (List S)}
     (hlen : lens.length = B)
     (h : ∀ i, i < B → ∃ l v, lens[i]? = some l ∧ l ≠ 0 ∧ (hTemp[l - 1]?).bind (·[i]?) = some v) :
-    ∃ last, gatherLast B lens hTemp = some last ∧ last.length = B ∧
-      ∀ i l, i < B → lens[i]? = some l → last[i]? = (hTemp[l - 1]?).bind (·[i]?) := by
+    ∃ last, gatherLast cast B lens hTemp = some last ∧ last.length = B ∧
+      ∀ i l, i < B → lens[i]? = some l → last[i]? = ((hTemp[l - 1]?).bind (·[i]?)).map cast := by
   let f : Nat → Option S := fun i =>
     match lens[i]? with
     | none => none
     | some l =>
       match (if l = 0 then hTemp.getLast? else hTemp[l - 1]?) with
       | none => none
-      | some row => row[i]?
-  have hf : ∀ i, i < B → ∀ l, lens[i]? = some l → f i = (hTemp[l - 1]?).bind (·[i]?) := by
+      | some row => (row[i]?).map cast
+  have hf : ∀ i, i < B → ∀ l, lens[i]? = some l → f i = ((hTemp[l - 1]?).bind (·[i]?)).map cast := by
     intro i hi l hl
     obtain ⟨l', v, h1, h2, h3⟩ := h i hi
     rw [hl] at h1; cases h1
@@ -121,21 +121,21 @@ theorem gatherLast_eq {B : Nat} {lens : List Nat} {hTemp : List (List S)}
 /-! ### one direction of one layer refines the per-sequence recurrence -/
 
 /-- the contract a `forward_layer` variant has to meet on inputs of shape `sh` with `B` state rows -/
-def LayerRefines (B : Nat) (sh : List Nat)
+def LayerRefines (cast : S → S) (B : Nat) (sh : List Nat)
     (layerFn : (X → S → S) → List S → List (List X) → Bool → Option (List (List S) × List S)) : Prop :=
   ∀ (cell : X → S → S) (h0 : List S) (x : List (List X)) (rev : Bool),
     h0.length = B → x.map List.length = sh →
     ∃ o last, layerFn cell h0 x rev = some (o, last) ∧ o.map List.length = sh ∧ last.length = B ∧
       ∀ i s, h0[i]? = some s →
         seqOf o i = (specDir cell s (seqOf x i) rev).1 ∧
-        last[i]? = some (specDir cell s (seqOf x i) rev).2
+        last[i]? = some (cast (specDir cell s (seqOf x i) rev).2)
 
 
 theorem lt_of_getElem?_eq_some {l : List α} {i : Nat} {a : α} (h : l[i]? = some a) : i < l.length :=
   (List.getElem?_eq_some_iff.mp h).1
 
-theorem layerPacked_refines (B : Nat) (rest : List Nat) (hp : (B :: rest).Pairwise (· ≥ ·)) :
-    LayerRefines (X := X) (S := S) B (B :: rest) (layerPacked B) := by
+theorem layerPacked_refines (cast : S → S) (B : Nat) (rest : List Nat) (hp : (B :: rest).Pairwise (· ≥ ·)) :
+    LayerRefines (X := X) (S := S) cast B (B :: rest) (layerPacked cast B) := by
   intro cell h0 x rev h0len hsh
   have hbound : ∀ y ∈ x, y.length ≤ h0.length := by
     intro y hy
@@ -174,7 +174,7 @@ theorem layerPacked_refines (B : Nat) (rest : List Nat) (hp : (B :: rest).Pairwi
       have hs : h0[i]? = some (h0[i]'(by omega)) := List.getElem?_eq_getElem (by omega)
       obtain ⟨a, b, c⟩ := key i _ hs
       exact ⟨_, _, a, b, c⟩
-    obtain ⟨last, hg, hll, hlast⟩ := gatherLast_eq hlensl key'
+    obtain ⟨last, hg, hll, hlast⟩ := gatherLast_eq cast hlensl key'
     refine ⟨scanSteps (stepPacked cell h0) h0 x, last, ?_, hshape.trans hsh, hll, ?_⟩
     · simp [layerPacked, hsh, hcsl, hg]
     · intro i s hs
@@ -245,7 +245,7 @@ theorem layerPacked_refines (B : Nat) (rest : List Nat) (hp : (B :: rest).Pairwi
       have h2 : bs.length + 1 ≠ 0 := by omega
       rw [← hT] at hk
       exact ⟨bs.length + 1, _, h1, h2, hk⟩
-    obtain ⟨last, hg, hll, hlast⟩ := gatherLast_eq (by simp) key'
+    obtain ⟨last, hg, hll, hlast⟩ := gatherLast_eq cast (by simp) key'
     refine ⟨(scanSteps (stepPacked cell h0) h0 x.reverse).reverse, last, ?_, ?_, hll, ?_⟩
     · simp [layerPacked, hrsh, hbbs, hcsl, hg]
     · rw [List.map_reverse, hshape, hrsh, List.reverse_reverse]
